@@ -10,7 +10,14 @@ of the associated namespace class (a namespace is written [c, fields] or [c, fie
 tag 0 = the class itself): values ignore the tag, the flow of instances does not (tagged
 encoding, see RArgsTie.v).  Every namespace instance and every set is observed with its hash
 and `==` against all the others.  Plus a stream of namespace class statements, namespace
-constructor calls and render class statements against the metaclass tables."""
+constructor calls and render class statements against the metaclass tables.
+
+Namespace programs over a universe of field VALUES (type "nsprog"; model/RArgsVal.v, judged by
+model/RArgsValTie.v): the rejection rules of the namespace classes are statements about field
+NAMES and must hold for every value - None, Ellipsis, 0, False, 0.0, "", (), NaN-like objects,
+values equal to the current / default value - and for every split between positional and keyword
+arguments; constructor, update(**fields), RenderArgs.update(cls, **fields), attribute reads,
+as_dict, ==, hash."""
 from __future__ import annotations
 
 import copy
@@ -18,10 +25,12 @@ import copy
 import core
 
 LEVEL = "proof"
-EXTRA_TARGETS = ["model/RArgsTie.vo"]
+EXTRA_TARGETS = ["model/RArgsTie.vo", "model/RArgsValTie.vo"]
 
 HEADER = ("From Coq Require Import List ZArith.\nImport ListNotations.\n"
           "From TI Require Import model.RArgs model.RArgsTie.\nOpen Scope nat_scope.\n")
+NHEADER = ("From Coq Require Import List ZArith.\nImport ListNotations.\n"
+           "From TI Require Import model.RArgsVal model.RArgsValTie.\nOpen Scope nat_scope.\n")
 
 # ------------------------------------------------------------------ generator
 
@@ -546,6 +555,153 @@ def gen_rend(rng):
     return {"type": "rend", "bases": [rng.random() < 0.5 for _ in range(rng.randint(0, 3))]}
 
 
+# ------------------------------------------------------------------ namespace programs over VALUES
+
+# the value universe (see model/RArgsVal.v): ["i", n] int, ["b", 0/1] bool, ["f", n] integral
+# float, ["n"] None, ["e"] Ellipsis, ["s", k] k-th string of impl_c16.STRS ("" first), ["t"] (),
+# ["nan", k] k-th NaN-like object (even k: a float nan, odd k: an object whose __eq__ is False)
+V_NONE, V_ELL, V_TUP = ["n"], ["e"], ["t"]
+UNIVERSE = [V_NONE, V_ELL, ["i", 0], ["i", 1], ["i", 7], ["i", -3], ["b", 0], ["b", 1], ["f", 0], ["f", 1],
+            ["s", 0], ["s", 1], V_TUP, ["nan", 0], ["nan", 1]]
+N_UNKNOWN_NAMES = 7          # unknown names are the positions nf .. nf + 6 (impl_c16.field_name)
+UNKNOWN_ATTR_METHOD = 5      # ... of which this one names a method: not used for attribute reads
+
+
+def gen_val(rng, near=()):
+    """a field value: often one of `near` (the current / default value of the field), often None"""
+    r = rng.random()
+    near = [v for v in near if v is not None]
+    if near and r < 0.3:
+        return list(rng.choice(near))
+    if r < 0.45:
+        return list(V_NONE)
+    if r < 0.55:
+        return ["nan", rng.randrange(4)]
+    return list(rng.choice(UNIVERSE))
+
+
+def ns_sim(cl, env, o):
+    """generator-side guess of the result of an operation ((class, fields) or None): only used to
+    bias operands and values, never to judge"""
+    def known(c, kw):
+        return all(j < len(cl[c]) for j, _ in kw)
+    k = o["op"]
+    if k == "ctor":
+        c = o["c"]
+        if c >= len(cl) or len(o["pos"]) > len(cl[c]) or not known(c, o["kw"]) or any(j < len(o["pos"]) for j, _ in o["kw"]):
+            return None
+        f = list(o["pos"]) + list(cl[c][len(o["pos"]):])
+        for j, v in o["kw"]:
+            f[j] = v
+        return (c, f)
+    x = env[o["x"]] if o["x"] < len(env) else None
+    if x is None or k == "get":
+        return None
+    c, f = x
+    if k == "raupd" and not c <= o["m"] < len(cl):
+        return None
+    if not known(c, o["kw"]):
+        return None
+    f = list(f)
+    for j, v in o["kw"]:
+        f[j] = v
+    return (c, f)
+
+
+def gen_kw(rng, nf, lo, cur, dfl, p_unknown):
+    """keyword fields: distinct names; known ones from positions lo..nf-1; with probability
+    p_unknown one or two unknown names, each with any value of the universe"""
+    pool = list(range(lo, nf))
+    js = rng.sample(pool, min(len(pool), rng.choice([0, 1, 1, 2, 3])))
+    kw = [[j, gen_val(rng, (cur[j] if cur else None, dfl[j]))] for j in js]
+    if rng.random() < p_unknown:
+        for u in rng.sample(range(N_UNKNOWN_NAMES), rng.choice([1, 1, 2])):
+            kw.insert(rng.randint(0, len(kw)), [nf + u, gen_val(rng, (cur[0] if cur else None, dfl[0]))])
+    return kw
+
+
+def gen_nsprog(rng, size=12):
+    ncls = rng.choice([1, 1, 2, 2, 3])
+    cl = []
+    for _ in range(ncls):
+        nf = rng.choice([1, 2, 2, 3, 4])
+        cl.append([gen_val(rng) for _ in range(nf)])
+    env = [(c, list(cl[c])) for c in range(ncls)]
+    ops = []
+    nops = rng.randint(1, size)
+    while len(ops) < nops:
+        r = rng.random()
+        live = [v for v, x in enumerate(env) if x is not None]
+        x = rng.choice(live) if rng.random() < 0.95 else rng.randrange(len(env) + 1)
+        xc, xf = env[x] if x < len(env) and env[x] is not None else (0, None)
+        if r < 0.3:
+            c = rng.randrange(ncls)
+            nf = len(cl[c])
+            nv = rng.choice(list(range(nf + 1)) + [nf, nf + 1])       # every arity, the full list often
+            pos = [gen_val(rng, (cl[c][j] if j < nf else None,)) for j in range(nv)]
+            kw = gen_kw(rng, nf, min(nv, nf), None, cl[c], 0.4)
+            if nv and rng.random() < 0.12:                             # a field given twice
+                kw.append([rng.randrange(min(nv, nf)), gen_val(rng)])
+            o = {"op": "ctor", "c": c, "pos": pos, "kw": kw}
+        elif r < 0.62:
+            o = {"op": "upd", "x": x, "kw": gen_kw(rng, len(cl[xc]), 0, xf, cl[xc], 0.4) if rng.random() < 0.93 else []}
+        elif r < 0.9:
+            m = rng.randint(xc, ncls - 1) if rng.random() < 0.9 else rng.randrange(ncls + 1)
+            o = {"op": "raupd", "x": x, "m": m,
+                 "kw": gen_kw(rng, len(cl[xc]), 0, xf, cl[xc], 0.4) if rng.random() < 0.93 else []}
+        else:
+            nf = len(cl[xc])
+            j = rng.randrange(nf) if rng.random() < 0.6 else nf + rng.choice([u for u in range(N_UNKNOWN_NAMES) if u != UNKNOWN_ATTR_METHOD])
+            o = {"op": "get", "x": x, "j": j}
+        ops.append(o)
+        env.append(ns_sim(cl, env, o))
+    return {"type": "nsprog", "cl": cl, "ops": ops}
+
+
+def ns_boundary_corpus():
+    """every value of the universe paired with an unknown name, on every route: constructor with
+    0..nf+1 positional values (all positional/keyword splits), update / RenderArgs.update with the
+    unknown field alone, next to a known field that changes, next to a known field that does not,
+    before and after it; and as the value of a KNOWN field (by position, by keyword, by update)"""
+    out = []
+    values = [V_NONE, V_ELL, ["i", 0], ["i", 1], ["b", 0], ["b", 1], ["f", 0], ["s", 0], ["s", 1], V_TUP,
+              ["nan", 0], ["nan", 1]]
+    for nf, dfl in ((1, [V_NONE]), (3, [["s", 1], V_NONE, ["i", 0]])):
+        for vi, v in enumerate(values):
+            cl = [dfl, [["b", 0]]]
+            u = nf + vi % N_UNKNOWN_NAMES                       # the unknown name cycles
+            other = ["i", 9]
+            ops = []
+            for k in range(nf + 2):                             # Args(v1..vk, unknown=v)
+                ops.append({"op": "ctor", "c": 0, "pos": [other] * k, "kw": [[u, v]]})
+            ops.append({"op": "ctor", "c": 0, "pos": [], "kw": [[j, other] for j in range(nf)] + [[u, v]]})
+            nd = 2 + len(ops)                                   # env index of the next result
+            ops.append({"op": "ctor", "c": 0, "pos": [v] + [other] * (nf - 1), "kw": []})   # v by position
+            ops.append({"op": "ctor", "c": 0, "pos": [], "kw": [[nf - 1, v]]})               # v by keyword
+            for x in (0, nd):                                   # the shared default, a non-default instance
+                cur = dfl[0] if x == 0 else v
+                for route in ("upd", "raupd"):
+                    for kw in ([[u, v]], [[0, other], [u, v]], [[u, v], [0, other]], [[0, cur], [u, v]],
+                               [[0, v]], [[0, cur]]):
+                        o = {"op": route, "x": x, "kw": kw}
+                        if route == "raupd":
+                            o["m"] = (vi + len(ops)) % 2
+                        ops.append(o)
+            ops.append({"op": "upd", "x": 0, "kw": []})
+            ops.append({"op": "get", "x": nd, "j": 0})
+            ops.append({"op": "get", "x": nd, "j": u if u - nf != UNKNOWN_ATTR_METHOD else nf})
+            # the second class: its default False against 0 / 0.0 / None / NaN given as values
+            ops.append({"op": "ctor", "c": 1, "pos": [v], "kw": []})
+            ops.append({"op": "ctor", "c": 1, "pos": [], "kw": [[0, ["i", 0]]]})
+            ops.append({"op": "raupd", "x": 1, "m": 0, "kw": [[0, v]]})                     # incompatible set
+            ops.append({"op": "raupd", "x": 1, "m": 1, "kw": [[0, v], [1 + vi % N_UNKNOWN_NAMES, V_NONE]]})
+            out.append({"type": "nsprog", "cl": cl, "ops": ops})
+    return out
+
+
+NS_CORPUS = ns_boundary_corpus()
+
+
 # ------------------------------------------------------------------ Coq encoding
 
 
@@ -628,13 +784,81 @@ def meta_term(c, r):
     return f"MRend {core.coq_list(c['bases'], b_)} {b_(r['accepted'])}"
 
 
+def val_term(v):
+    t = v[0]
+    if t == "i":
+        return f"(VInt {core.z(v[1])})"
+    if t == "b":
+        return f"(VBool {b_(v[1])})"
+    if t == "f":
+        return f"(VFloat {core.z(v[1])})"
+    if t == "s":
+        return f"(VStr {v[1]})"
+    if t == "nan":
+        return f"(VNan {v[1]})"
+    return {"n": "VNone", "e": "VEllipsis", "t": "VEmptyTuple"}[t]
+
+
+def vl(l):
+    return core.coq_list(l, val_term)
+
+
+def kw_term(kw):
+    return core.coq_list(kw, lambda p: f"({p[0]}, {val_term(p[1])})")
+
+
+def nop_term(o):
+    k = o["op"]
+    if k == "ctor":
+        return f"NCtor {o['c']} {vl(o['pos'])} {kw_term(o['kw'])}"
+    if k == "upd":
+        return f"NUpdate {o['x']} {kw_term(o['kw'])}"
+    if k == "raupd":
+        return f"NRaUpdate {o['x']} {o['m']} {kw_term(o['kw'])}"
+    return f"NGet {o['x']} {o['j']}"
+
+
+def nsobs_term(d):
+    return f"{{| no_cls := {d[0]}; no_dict := {vl(d[1])}; no_attr := {vl(d[2])}; no_hash := {core.z(d[3])} |}}"
+
+
+def nobs_term(b, prev, hmap):
+    """lossless compression of the observation: a dump that extends the previous one is written
+    as its new tail only; hash values are renamed to small integers (only their equality is used)"""
+    dump = [d[:3] + [hmap.setdefault(d[3], len(hmap))] for d in b["dump"]]
+    ext = dump[:len(prev)] == prev
+    tail = dump[len(prev):] if ext else dump
+    return (f"{{| nb_res := {core.z(b['res'])}; nb_val := {val_term(b['val'])}; nb_ext := {b_(ext)}; "
+            f"nb_dump := {core.coq_list(tail, nsobs_term)}; nb_eq := {core.coq_list(b['eq'], b_)}; "
+            f"nb_dfl := {core.coq_list(b['dfl'], vl)}; nb_flags := {b_(b['flags'])} |}}"), dump
+
+
+def nsprog_term(c, r):
+    hmap = {}
+    prev = [d[:3] + [hmap.setdefault(d[3], len(hmap))] for d in r["init"]]
+    init = core.coq_list(prev, nsobs_term)
+    obs = []
+    for b in r["obs"]:
+        t, prev = nobs_term(b, prev, hmap)
+        obs.append(t)
+    return (f"{{| nc_cl := {core.coq_list(c['cl'], vl)}; nc_ops := {core.coq_list(c['ops'], nop_term)}; "
+            f"nc_init := {init}; nc_obs := {core.coq_list(obs)}; "
+            f"nc_fin_eq := {bmat(r['fin'])} |}}")
+
+
 def evaluate(cases, tag="c16", want_diag=False):
     """Returns (codes, errors, impl results, diag strings)."""
     impl = core.run_impl_parallel("impl_c16.py", cases)
     progs = [(i, prog_term(c, r)) for i, (c, r) in enumerate(zip(cases, impl)) if c["type"] == "prog"]
-    metas = [(i, meta_term(c, r)) for i, (c, r) in enumerate(zip(cases, impl)) if c["type"] != "prog"]
+    metas = [(i, meta_term(c, r)) for i, (c, r) in enumerate(zip(cases, impl)) if c["type"] in ("stmt", "ctor", "rend")]
+    nsps = [(i, nsprog_term(c, r)) for i, (c, r) in enumerate(zip(cases, impl)) if c["type"] == "nsprog"]
     codes = [0] * len(cases)
     errors = []
+    if nsps:
+        bad, errs = core.coq_shards(tag + "n", NHEADER, [t for _, t in nsps], "ncase", "nbad cases", shard=16)
+        errors += errs
+        for idx, code in bad:
+            codes[nsps[idx][0]] = code
     if progs:
         bad, errs = core.coq_shards(tag, HEADER, [t for _, t in progs], "tcase", "bad cases", shard=24)
         errors += errs
@@ -647,12 +871,15 @@ def evaluate(cases, tag="c16", want_diag=False):
             codes[metas[idx][0]] = code
     diags = {}
     if want_diag:
-        failing = sorted((i for i, _ in progs if codes[i]), key=lambda i: (codes[i] < 2, len(cases[i]["ops"])))[:6]
-        terms = dict(progs)
+        failing = sorted((i for i, _ in progs + nsps if codes[i]), key=lambda i: (codes[i] < 2, len(cases[i]["ops"])))[:6]
+        terms = dict(progs + nsps)
         for i in failing:
             t = terms[i]
             if codes[i]:
-                text = HEADER + f"\nDefinition c : tcase := {t}.\nSet Printing Width 100000.\nEval vm_compute in (diag c).\n"
+                if cases[i]["type"] == "nsprog":
+                    text = NHEADER + f"\nDefinition c : ncase := {t}.\nSet Printing Width 100000.\nEval vm_compute in (ndiag c).\n"
+                else:
+                    text = HEADER + f"\nDefinition c : tcase := {t}.\nSet Printing Width 100000.\nEval vm_compute in (diag c).\n"
                 rc, out = core.coq_eval_file(f"{tag}d_{i}", text, timeout=300)
                 vals = core.parse_evals(out)
                 diags[i] = vals[0] if vals else out[-300:]
@@ -746,7 +973,129 @@ def shrink(case, diag=None, rounds=25):
     return cur
 
 
+def ns_drop_op(case, t):
+    """the namespace program without operation t, or None when a later operation uses its result"""
+    r = len(case["cl"]) + t
+    if any(o.get("x") == r for o in case["ops"][t + 1:]):
+        return None
+    c = copy.deepcopy(case)
+    del c["ops"][t]
+    for o in c["ops"][t:]:
+        if o.get("x", 0) > r:
+            o["x"] -= 1
+    return c
+
+
+def shrink_ns(case, diag=None, rounds=25):
+    cur = case
+    t = first_failing_step(diag)
+    if t is not None and t + 1 < len(case["ops"]):
+        c = copy.deepcopy(case)
+        c["ops"] = c["ops"][:t + 1]
+        codes, errors, _, _ = evaluate([c], tag="c16s")
+        if codes[0] >= 2 and not errors:
+            cur = c
+    for _ in range(rounds):
+        cands = [c for c in (ns_drop_op(cur, t) for t in range(len(cur["ops"]))) if c and c["ops"]]
+        for t, o in enumerate(cur["ops"]):
+            for i in range(len(o.get("kw", []))):           # one keyword less
+                c = copy.deepcopy(cur)
+                del c["ops"][t]["kw"][i]
+                cands.append(c)
+            if o.get("pos"):                                # one positional value less
+                c = copy.deepcopy(cur)
+                c["ops"][t]["pos"].pop()
+                cands.append(c)
+        ncl = len(cur["cl"])                                # a class no operation touches
+        for k in range(ncl):
+            if ncl > 1 and not any(o.get("c") == k or o.get("x") == k for o in cur["ops"]) \
+                    and not any(o["op"] == "raupd" and o["m"] >= k for o in cur["ops"]):
+                c = copy.deepcopy(cur)
+                del c["cl"][k]
+                for o in c["ops"]:
+                    if o.get("x", 0) > k:
+                        o["x"] -= 1
+                    if o.get("c", 0) > k:
+                        o["c"] -= 1
+                cands.append(c)
+        if ncl > 1:                                         # only the class of the last operation
+            o = cur["ops"][-1]
+            k = o.get("c") if o["op"] == "ctor" else o.get("x") if o.get("x", ncl) < ncl else None
+            if k is not None and len(cur["ops"]) == 1 and o.get("m", k) == k:
+                c = copy.deepcopy(cur)
+                c["cl"] = [c["cl"][k]]
+                c["ops"][0].update({kk: 0 for kk in ("c", "x", "m") if kk in o})
+                cands.append(c)
+        if not cands:
+            break
+        codes, errors, _, _ = evaluate(cands, tag="c16s")
+        nxt = next((c for c, code in zip(cands, codes) if code >= 2), None)
+        if nxt is None or errors:
+            break
+        cur = nxt
+    return cur
+
+
+PYVAL = {"n": "None", "e": "...", "t": "()"}
+
+
+def pyval(v):
+    if v[0] in PYVAL:
+        return PYVAL[v[0]]
+    if v[0] == "b":
+        return str(bool(v[1]))
+    if v[0] == "f":
+        return f"{v[1]}.0"
+    if v[0] == "s":
+        return repr(["", "x", "0", "None", "f0"][v[1]])
+    if v[0] == "nan":
+        return f"nan{v[1]}"
+    return str(v[1])
+
+
+def describe_ns(case):
+    ncls = len(case["cl"])
+    unk = ["bogus", None, "F0", "f0_", "fields", "as_dict"]
+
+    def name(j, nf):
+        if j < nf:
+            return f"f{j}"
+        k = j - nf
+        return (unk[k] or f"f{nf}") if k < len(unk) else f"x{k}"
+
+    cls_of = list(range(ncls))      # class of each env entry, as far as it can be told statically
+
+    def var(x):
+        return f"D{x}" if x < ncls else f"r{x - ncls}"
+
+    def kws(kw, c):
+        nf = len(case["cl"][c]) if c is not None and c < ncls else 0
+        return ", ".join(f"{name(j, nf)}={pyval(v)}" for j, v in kw)
+
+    out = []
+    for o in case["ops"]:
+        k = o["op"]
+        c = o["c"] if k == "ctor" else (cls_of[o["x"]] if o["x"] < len(cls_of) else None)
+        cls_of.append(c)
+        if k == "ctor":
+            args = ", ".join([pyval(v) for v in o["pos"]] + ([kws(o["kw"], c)] if o["kw"] else []))
+            out.append(f"A{c}({args})")
+        elif k == "upd":
+            out.append(f"{var(o['x'])}.update({kws(o['kw'], c)})")
+        elif k == "raupd":
+            rc = "R?" if c is None else f"R{c}"     # ? = the operand is not a live namespace
+            out.append(f"RenderArgs(R{o['m']}, {var(o['x'])}).update({rc}{', ' if o['kw'] else ''}{kws(o['kw'], c)})[{rc}]")
+        else:
+            nf = len(case["cl"][c]) if c is not None and c < ncls else 0
+            out.append(f"{var(o['x'])}.{name(o['j'], nf)}")
+    classes = "; ".join(f"A{c}({', '.join(f'f{j}={pyval(v)}' for j, v in enumerate(d))}) for R{c}" for c, d in enumerate(case["cl"]))
+    return (f"namespace classes [{classes}] (R0 <- R1 <- ..; D<c> = the shared default instance of A<c>, "
+            f"r<t> = result of operation t) ops=[{'; '.join(out)}]")
+
+
 def describe(case):
+    if case["type"] == "nsprog":
+        return describe_ns(case)
     if case["type"] != "prog":
         return str({k: v for k, v in case.items() if k not in ("extra_kind", "bad_kind")})
 
@@ -791,12 +1140,16 @@ def run(ctx):
         cases = [ctx.replay["replay"]["case"]]
         ncorpus = 0
     else:
-        np_, ns_, nct, nr = (300, 260, 160, 40) if ctx.quick else (6000, 3000, 1500, 200)
-        corpus = list(CORPUS) + list(STMT_CORPUS)
+        np_, ns_, nct, nr, nnp = (300, 260, 160, 40, 160) if ctx.quick else (6000, 3000, 1500, 200, 4000)
+        corpus = list(CORPUS) + list(STMT_CORPUS) + list(NS_CORPUS)
         ncorpus = len(corpus)
         cases = corpus + [gen_prog(rng, 30 if i % 3 else 8) for i in range(np_)]
         cases += [gen_stmt(rng) for _ in range(ns_)] + [gen_ctor(rng) for _ in range(nct)]
         cases += [gen_rend(rng) for _ in range(nr)]
+        # its own stream: the programs above are the same with or without this family
+        import random
+        nrng = random.Random(rng.getrandbits(64))
+        cases += [gen_nsprog(nrng, 12 if i % 4 else 4) for i in range(nnp)]
     codes, errors, impl, diags = evaluate(cases, want_diag=True)
     hist = {"case_types": {}, "classes": {}, "ops_len": {}, "op_kinds": {}, "op_outcomes": {},
             "results_aliasing_an_existing_object": 0, "results_new_object": 0,
@@ -808,8 +1161,19 @@ def run(ctx):
             "equal_namespace_instance_pairs_of_different_classes": 0,
             "equal_set_pairs_holding_instances_of_different_classes": 0,
             "programs_with_equal_objects_built_from_different_namespace_classes": 0,
-            "stmt_outcomes": {}, "ctor_outcomes": {}, "rend_outcomes": {}}
+            "stmt_outcomes": {}, "ctor_outcomes": {}, "rend_outcomes": {},
+            "nsprog": {"op_kinds": {}, "op_outcomes": {}, "ops_len": {}, "classes": {},
+                       "ctor_calls_by_positional_count_minus_field_count": {},
+                       "calls_with_an_unknown_keyword_by_value_kind": {},
+                       "calls_with_an_unknown_keyword_by_route": {},
+                       "unknown_keyword_next_to_known_keywords": 0,
+                       "unknown_keyword_next_to_full_positional_list": 0,
+                       "known_field_values_given_by_kind": {},
+                       "known_field_given_its_current_value": 0,
+                       "equal_instance_pairs": 0, "equal_instance_pairs_with_values_of_different_types": 0,
+                       "instances_holding_a_nan_like_value": 0, "update_without_fields": 0}}
     distinct = set()
+    ndistinct = set()
 
     def bump(d, k):
         d[k] = d.get(k, 0) + 1
@@ -862,6 +1226,54 @@ def run(ctx):
             # (an interning shortcut was taken) and some operation using an earlier result
             if len(c["par"]) >= 3 and len(c["ops"]) >= 4 and alias and any(uses(o) for o in c["ops"]):
                 distinct.add(core.sig(canon(c)))
+        elif c["type"] == "nsprog":
+            nh = hist["nsprog"]
+            cl = c["cl"]
+            bump(nh["classes"], len(cl))
+            bump(nh["ops_len"], min(len(c["ops"]) // 4 * 4, 40))
+            cls_of = list(range(len(cl)))
+            cur = [list(d) for d in cl]          # value lists of the env entries, as observed
+            interesting = False
+            for o, b in zip(c["ops"], r["obs"]):
+                k = o["op"]
+                bump(nh["op_kinds"], k)
+                bump(nh["op_outcomes"], "ok" if b["res"] >= 0 else "value" if b["res"] == -100 else f"err{-1 - b['res']}")
+                cc = o["c"] if k == "ctor" else (cls_of[o["x"]] if o["x"] < len(cls_of) else None)
+                xf = cur[o["x"]] if k != "ctor" and o["x"] < len(cur) else None
+                cls_of.append(cc if b["res"] >= 0 else None)
+                cur.append(b["dump"][b["res"]][1] if b["res"] >= 0 else None)
+                if cc is None or cc >= len(cl):
+                    continue
+                nf = len(cl[cc])
+                if k == "ctor":
+                    bump(nh["ctor_calls_by_positional_count_minus_field_count"], len(o["pos"]) - nf)
+                kw = o.get("kw", [])
+                if k in ("upd", "raupd") and not kw:
+                    nh["update_without_fields"] += 1
+                unk = [p for p in kw if p[0] >= nf]
+                for j, v in unk:
+                    bump(nh["calls_with_an_unknown_keyword_by_value_kind"], v[0] + (str(v[1]) if v[0] in "ibfs" else ""))
+                if unk:
+                    interesting = True
+                    bump(nh["calls_with_an_unknown_keyword_by_route"], k)
+                    nh["unknown_keyword_next_to_known_keywords"] += any(p[0] < nf for p in kw)
+                    nh["unknown_keyword_next_to_full_positional_list"] += k == "ctor" and len(o["pos"]) == nf
+                for j, v in kw:
+                    if j < nf:
+                        bump(nh["known_field_values_given_by_kind"], v[0])
+                        if xf is not None and j < len(xf) and xf[j] == v:
+                            nh["known_field_given_its_current_value"] += 1
+            last = r["obs"][-1]["dump"] if r["obs"] else r["init"]
+            nh["instances_holding_a_nan_like_value"] += sum(1 for d in last if any(v[0] == "nan" for v in d[1]))
+            for i, row in enumerate(r["fin"]):
+                for j, e in enumerate(row):
+                    if i < j and e:
+                        nh["equal_instance_pairs"] += 1
+                        nh["equal_instance_pairs_with_values_of_different_types"] += any(
+                            a[0] != b_[0] for a, b_ in zip(last[i][1], last[j][1]))
+            # non-trivial: some call carries an unknown keyword and some call is accepted
+            if interesting and any(b["res"] >= len(cl) for b in r["obs"]):
+                ndistinct.add(core.sig(c))
         elif c["type"] == "stmt":
             bump(hist["stmt_outcomes"], r["code"])
         elif c["type"] == "ctor":
@@ -876,10 +1288,15 @@ def run(ctx):
         code = codes[i]
         c = cases[i]
         if code >= 2:
-            small = shrink(c, diags.get(i)) if (c["type"] == "prog" and not failures and not ctx.replay) else c
+            small = c
+            if not failures and not ctx.replay:
+                small = shrink(c, diags.get(i)) if c["type"] == "prog" else shrink_ns(c, diags.get(i)) if c["type"] == "nsprog" else c
             codes2, _, impl2, diags2 = evaluate([small], tag="c16r", want_diag=True)
             what = ("render-argument program violates the documented rule "
-                    if c["type"] == "prog" else "namespace/render class statement decided against the documented table ")
+                    if c["type"] == "prog" else
+                    "namespace program (constructor / update / RenderArgs.update over the value universe) violates the documented rule "
+                    if c["type"] == "nsprog" else
+                    "namespace/render class statement decided against the documented table ")
             what += f"(failing step/sub-check: {diags2.get(0, '')}): {describe(small)}"
             failures.append({"signature": core.sig(canon(small)), "what": what,
                              "replay": {"case": small, "observed": impl2[0], "code": codes2[0]}})
@@ -891,9 +1308,11 @@ def run(ctx):
         "corr_name": "RArgs.step_op (heap model) and RArgs.spec_op (value-level rule) == real RenderArgs/ArgsNamespace "
                      "programs on generated class forests with namespace-class subclasses; == is the structural equivalence and "
                      "equal objects hash equal on every pair of live sets / namespace instances; "
-                     "RArgs.ns_meta / ns_ctor / renderable_meta == real class statements",
+                     "RArgs.ns_meta / ns_ctor / renderable_meta == real class statements; "
+                     "RArgsVal.nstep_op (heap of namespace instances) and RArgsVal.spec_nop (field-by-field rule) == real "
+                     "ArgsNamespace constructor / update / RenderArgs.update / attribute reads over the value universe",
         "evaluations": len(cases),
-        "distinct_nontrivial": len(distinct),
+        "distinct_nontrivial": len(distinct) + len(ndistinct),
         "rule": "corpus + generated programs: forest of 2-8 render classes (depth <= 4, branching <= 3, chains / bushy / random), "
                 "45-85% of classes with an Args namespace of 1-3 int fields and, in 60% of the forests with an inner class, a forced "
                 "GAP pattern A(args) <- B(no Args of its own) [<- C(args)]; 0-3 SUBCLASSES of every namespace class (child, "
@@ -906,10 +1325,24 @@ def run(ctx):
                 "and at the end, == of every pair.  Non-trivial program: >= 3 classes, >= 4 "
                 "operations, at least one result that IS an earlier object (interning shortcut taken) and one operation using "
                 "an earlier result; distinct by program hash.  Plus generated namespace class statements, namespace "
-                "constructor calls and render class statements (counted in evaluations, not in distinct_nontrivial).",
-        "samples": [describe(c) for c in (progs[:1] + progs[len(CORPUS):len(CORPUS) + 3])] + [describe(c) for c in cases if c["type"] == "stmt"][:2],
+                "constructor calls and render class statements (counted in evaluations, not in distinct_nontrivial).  "
+                "NAMESPACE PROGRAMS over the value universe {None, Ellipsis, ints, False/True, 0.0/1.0, '', 'x', (), NaN-like objects "
+                "(a float nan / an object whose __eq__ is False)}: 1-3 namespace classes of 1-4 fields (defaults from the universe, None "
+                "common) on a chain of render classes, 1-12 operations - constructor with EVERY number of positional values 0..nf+1 and "
+                "keywords (40% with 1-2 unknown names out of 7 spellings, each with any value; 12% a field given twice), update(**fields) and "
+                "RenderArgs(R_m, ns).update(R_c, **fields)[R_c] on the shared default instances and on earlier results (0-3 known fields "
+                "whose value is 30% the current/default value, 15% None, 10% NaN-like, else any; 40% with unknown names at any position "
+                "among the keywords), attribute reads (known / unknown names); plus a boundary corpus pairing each of 12 values with an "
+                "unknown name on every route (all positional/keyword splits; alone, next to a changing / an unchanged known field, before / "
+                "after it) and giving it to a known field by position, keyword and update.  After every operation: every live instance "
+                "(as_dict values, attribute values, hash; exact types, NaN-like objects by identity), == of the result with every instance, "
+                "get_fields() of every class.  Non-trivial namespace program: some call carries an unknown keyword and some call is "
+                "accepted; distinct by program hash (counted in distinct_nontrivial).",
+        "samples": [describe(c) for c in (progs[:1] + progs[len(CORPUS):len(CORPUS) + 3])] + [describe(c) for c in cases if c["type"] == "stmt"][:2]
+                   + [describe(c) for c in cases if c["type"] == "nsprog"][len(NS_CORPUS):len(NS_CORPUS) + 2],
         "histogram": hist,
-        "extra": {"failing_cases_total": nfail, "nonzero_cases_total": len(order)},
+        "extra": {"failing_cases_total": nfail, "nonzero_cases_total": len(order),
+                  "distinct_nontrivial_set_programs": len(distinct), "distinct_nontrivial_namespace_programs": len(ndistinct)},
         "mismatches": mismatches,
         "failures": failures,
         "errors": errors,
@@ -923,10 +1356,17 @@ def run(ctx):
             "ArgsNamespace.update builds type(self); namespace subclasses are single-inheritance chains below the associated class that add methods only",
             "RenderArgs objects are only created through the class call (type.__call__ = __new__ then __init__), never by calling __new__/__init__ directly",
             "hash is modelled as the tuple handed to hash(): equal tuples hash equal in CPython",
+            "namespace programs over values: the universe is {int, bool, integral float, None, Ellipsis, a table of distinct strings, (), "
+            "NaN-like objects}; Python's == on it is written out in RArgsVal.py_eq (bool/int/float compare by numeric value, a NaN-like "
+            "object is unequal to everything, itself included; the operator has no identity shortcut) and hash is modelled by the key "
+            "RArgsVal.hkey (numbers by value, NaN-like objects by identity); all values are hashable; keyword names in one call are "
+            "distinct (Python guarantees it); field names are positions, a position past the end is an unknown name",
         ],
         "trusted": [
             "impl driver: public API only (constructors, update, convert, |, +, to_render_args, iteration, item access, ==, hash, in) "
             "except the read of K._interned used for the model-only comparison of the interning tables; "
-            "namespace subclasses are created through the namespace metaclass (as a class statement does)",
+            "namespace subclasses are created through the namespace metaclass (as a class statement does); "
+            "namespace programs: the shared default instance of a class is obtained as RenderArgs(R)[R]; observed values are classified by "
+            "exact type and NaN-like objects by identity against the table of objects the driver made",
         ],
     }
